@@ -267,15 +267,39 @@ def callables(ctx):
     repo = ctx.repo
     sw = repo.func("tdgl.solution.solution", "Solution._save_to_hdf5_file")
     sr = repo.func("tdgl.solution.solution", "Solution.from_hdf5")
-    ser = repo.module("tdgl.solution.solution").functions.get("Solution._save_to_hdf5_file.serialize_func")
-    des = repo.module("tdgl.solution.solution").functions.get("Solution.from_hdf5.deserialize_func")
-    if ser is None or des is None:
+    # the two helpers are looked up in the source as written (nested in their callers today; module-level functions after an
+    # "extract function"), by the stem of their names
+    raw = ast.parse(repo.module("tdgl.solution.solution").source)
+    fdefs = [n for n in ast.walk(raw) if isinstance(n, ast.FunctionDef)]
+    sers = [n for n in fdefs if n.name.lstrip("_") == "serialize_func"]
+    dess = [n for n in fdefs if n.name.lstrip("_") == "deserialize_func"]
+    if len(sers) != 1 or len(dess) != 1:
         raise AnalysisError("serialize_func / deserialize_func helpers not found")
 
-    def names(fi, helper):
-        return sorted(c.args[1].value if helper == "serialize_func" else c.args[0].value
-                      for c in ast.walk(fi.node) if isinstance(c, ast.Call) and getattr(c.func, "id", "") == helper
-                      and c.args and isinstance(c.args[1 if helper == "serialize_func" else 0], ast.Constant))
+    class _H:
+        def __init__(self, node):
+            self.node, self.fq, self.module = node, f"tdgl.solution.solution:{node.name}", repo.module("tdgl.solution.solution")
+    ser, des = _H(sers[0]), _H(dess[0])
+    # the canonical reading (tables of names unrolled) is used whenever the helpers are still functions of their own there
+    funcs = repo.module("tdgl.solution.solution").functions
+    c_ser = funcs.get("Solution._save_to_hdf5_file.serialize_func") or funcs.get(sers[0].name)
+    c_des = funcs.get("Solution.from_hdf5.deserialize_func") or funcs.get(dess[0].name)
+    if c_ser is not None and c_des is not None:
+        fdefs = [sw.node, sr.node, c_ser.node, c_des.node]
+        sers, dess = [c_ser.node], [c_des.node]
+        ser, des = c_ser, c_des
+    callers_w = [n for n in fdefs if n.name == "_save_to_hdf5_file" or any(isinstance(c, ast.Call) and getattr(c.func, "id", "") == sers[0].name for c in ast.walk(n) if n is not sers[0])]
+    callers_r = [n for n in fdefs if n.name == "from_hdf5" or any(isinstance(c, ast.Call) and getattr(c.func, "id", "") == dess[0].name for c in ast.walk(n) if n is not dess[0])]
+
+    def names(_fi, helper):
+        hname = sers[0].name if helper == "serialize_func" else dess[0].name
+        pos = 1 if helper == "serialize_func" else 0
+        out = set()
+        for fn_ in (callers_w if helper == "serialize_func" else callers_r):
+            for c in ast.walk(fn_):
+                if isinstance(c, ast.Call) and getattr(c.func, "id", "") == hname and len(c.args) > pos and isinstance(c.args[pos], ast.Constant):
+                    out.add(c.args[pos].value)
+        return sorted(out)
     wn, rn = names(sw, "serialize_func"), names(sr, "deserialize_func")
     ctx.ob("R14.5", "same three callables are written and read", wn == rn and len(wn) == 3, detail={"written": wn, "read": rn},
            where=sr.fq, construct="callable names", loc=loc(sr, sr.node), message=f"written {wn}, read {rn}",
@@ -290,8 +314,8 @@ def callables(ctx):
     params = {a.arg for a in des.node.args.args}
     free = sorted({n.id for n in ast.walk(des.node) if isinstance(n, ast.Name) and isinstance(n.ctx, ast.Load)
                    and n.id not in params and any(isinstance(p, ast.Subscript) and p.value is n for p in ast.walk(des.node))})
-    call_args = {norm(c.args[1]) for c in ast.walk(sr.node) if isinstance(c, ast.Call)
-                 and getattr(c.func, "id", "") == "deserialize_func" and len(c.args) > 1}
+    call_args = {norm(c.args[1]) for fn_ in callers_r for c in ast.walk(fn_) if isinstance(c, ast.Call)
+                 and getattr(c.func, "id", "") == dess[0].name and len(c.args) > 1}
     ok = not free or call_args == set(free)
     ctx.ob("R14.5", "deserialize_func reads from the group it is called with", ok,
            detail={"free_group_variables": free, "call_arguments": sorted(call_args)}, where=des.fq,
